@@ -32,8 +32,10 @@ class N:
     def path(self):
         if self.parent is None:
             return '/'
+        if self.kind == 'attr':
+            return self.parent.path().rstrip('/') + '/@' + self.name
         sib = [x for x in self.parent.children if x.kind == self.kind and x.name == self.name]
-        label = self.name if self.kind == 'elem' else {'text': 'text()', 'comment': 'comment()', 'pi': 'processing-instruction(%s)' % self.name}[self.kind]
+        label = self.name if self.kind == 'elem' else {'text': 'text()', 'comment': 'comment()', 'pi': 'processing-instruction(%s)' % self.name, 'attr': '@' + self.name}[self.kind]
         return self.parent.path().rstrip('/') + '/%s[%d]' % (label, sib.index(self) + 1)
 
     def __repr__(self):
@@ -46,7 +48,12 @@ def build(shape):
 
     def go(parent, spec):
         for s in spec:
-            if isinstance(s, str) and s.startswith('?'):
+            if isinstance(s, str) and s.startswith('@'):
+                nd = N('attr', s[1:], None)
+                nd.parent = parent             # the owner element; attributes are not children
+                nd.stripped = False
+                parent.attrs = getattr(parent, 'attrs', []) + [nd]
+            elif isinstance(s, str) and s.startswith('?'):
                 nd = N('pi', s[1:], parent)
                 nd.stripped = False
             elif isinstance(s, str) and s == '!':
@@ -63,6 +70,8 @@ def build(shape):
 
     def walk(n):
         nodes.append(n)
+        for a in getattr(n, 'attrs', []):
+            nodes.append(a)
         for c in n.children:
             walk(c)
     walk(doc)
@@ -86,7 +95,7 @@ class CWorld:
         self.depth = 0
         self.calls = 0
         self.max_calls = 20000
-        self.T = {k: facts.enumconst.get(NS + 'XalanNode::' + k) for k in ('ELEMENT_NODE', 'TEXT_NODE', 'DOCUMENT_NODE', 'COMMENT_NODE', 'PROCESSING_INSTRUCTION_NODE')}
+        self.T = {k: facts.enumconst.get(NS + 'XalanNode::' + k) for k in ('ELEMENT_NODE', 'TEXT_NODE', 'DOCUMENT_NODE', 'COMMENT_NODE', 'PROCESSING_INSTRUCTION_NODE', 'ATTRIBUTE_NODE')}
         self.NONE = facts.enumconst.get(NS + 'XPath::eMatchScoreNone')
         self.HIT = facts.enumconst.get(NS + 'XPath::eMatchScoreQName')
         if None in self.T.values() or self.NONE is None or self.HIT is None:
@@ -133,6 +142,8 @@ class CWorld:
             return nd.kind == 'text' and not getattr(nd, 'stripped', False)
         if kind == 'doc':
             return nd.kind == 'doc'
+        if kind == 'attr':
+            return nd.kind == 'attr' and nd.name == name
         if kind == 'comment':
             return nd.kind == 'comment'
         if kind == 'pi':
@@ -199,9 +210,13 @@ class CWorld:
                     tgt.items.append(m.ev(a[0])); return 0
             if isinstance(tgt, N):
                 if n == 'getNodeType':
-                    return self.T[{'elem': 'ELEMENT_NODE', 'text': 'TEXT_NODE', 'doc': 'DOCUMENT_NODE', 'comment': 'COMMENT_NODE', 'pi': 'PROCESSING_INSTRUCTION_NODE'}[tgt.kind]]
+                    return self.T[{'elem': 'ELEMENT_NODE', 'text': 'TEXT_NODE', 'doc': 'DOCUMENT_NODE', 'comment': 'COMMENT_NODE', 'pi': 'PROCESSING_INSTRUCTION_NODE', 'attr': 'ATTRIBUTE_NODE'}[tgt.kind]]
                 if n == 'getParentNode':
                     return tgt.parent or 0
+                if n == 'getOwnerElement':
+                    return tgt.parent or 0
+                if tgt.kind == 'attr' and n in ('getPreviousSibling', 'getNextSibling', 'getFirstChild', 'getLastChild'):
+                    return 0
                 if n == 'getPreviousSibling':
                     if tgt.parent is None:
                         return 0
@@ -235,6 +250,10 @@ class CWorld:
                         s2 = {'s_textString': 'text()', 's_commentString': 'comment()', 's_slashString': '/'}.get(s2[1], s2[1])
                     if isinstance(s2, Obj) and s2.cls == 'mstr':
                         s2 = s2.fields['s']
+                    if isinstance(s2, str) and len(s2) > 1 and s2[0] == '@' and s2[1:].isalnum():
+                        return ('PAT', 'attr', s2[1:])
+                    if isinstance(s2, str) and s2 and not (s2[0].isalnum() or s2[0] in '/_*'):
+                        raise Fault('the pattern parser rejects %r' % s2)
                     if isinstance(s2, str) and s2.startswith('comment'):
                         return ('PAT', 'comment', '')
                     if isinstance(s2, str) and s2.startswith('processing-instruction('):
@@ -313,7 +332,7 @@ def ref_numbers(level, count, frm, nd, nodes):
         count = ('PAT', nd.kind, nd.name)
     if level == 'any':
         # "only nodes after the first node before the current node that match the from pattern are considered"
-        chain = [nd] + preceding_or_ancestor(nd, nodes)
+        chain = [nd] + [x for x in preceding_or_ancestor(nd, nodes) if x.kind != 'attr']        # 7.7: the union of the preceding and ancestor-or-self axes - no attributes
         n = 0
         for x in chain:
             if frm is not None and x is not nd and m(frm, x):
@@ -332,7 +351,7 @@ def ref_numbers(level, count, frm, nd, nodes):
         hits = hits[:1]
     out = []
     for x in reversed(hits):
-        sib = x.parent.children if x.parent is not None else [x]
+        sib = x.parent.children if x.parent is not None and x.kind != 'attr' else [x]        # an attribute has no siblings (XPath 1.0 5.3)
         out.append(1 + sum(1 for y in sib[:sib.index(x)] if m(count, y)))
     return out
 
@@ -342,6 +361,7 @@ SHAPES = [
     [['a', ['a', ['a'], ['b']], ['b', ['a']], ['a']]],
     [['r', ['s', ['b'], ['b']], ['s', ['b'], 't', ['b'], ['b']]]],
     [['r', '?p', '!', ['b'], '?q', '?p', '!', 't', ['s', '?p', '!']]],
+    [['r', '@k', '@j', ['b', '@k'], ['b'], ['s', '@k', ['b', '@j']]]],
 ]
 
 
